@@ -274,7 +274,7 @@ func c09Run(c *mon.Ctx, idx int) {
 	}
 }
 
-const c09NStress = 12
+const c09NStress = 13
 
 type C09Base struct{ A int }
 type c09Embedded struct {
@@ -420,6 +420,34 @@ func c09Stress(c *mon.Ctx, k int) {
 			expect("\"/"+strings.ReplaceAll(path, ".", "/")+"\" != 7", cur, "F", "threshold-path-lengths")
 			expect(path+".p == 7", cur, "E", "threshold-path-lengths")
 		}
+		// the same lengths reached THROUGH value aliases: a quantifier over a
+		// collection at the end of a path of `depth` parts, the body selecting
+		// below the alias; and quantifiers nested `depth` deep (two parts per level)
+		for _, depth := range []int{7, 8, 9, 15, 16, 17, 29, 30, 31, 32, 33, 40, 63, 64, 65, 100, 255, 256, 257} {
+			var cur interface{} = []interface{}{map[string]interface{}{"leaf": 7, "sub": map[string]interface{}{"leaf": 7}}}
+			for i := 0; i < depth; i++ {
+				cur = map[string]interface{}{"p": cur}
+			}
+			path := strings.Repeat("p.", depth-1) + "p"
+			expect("any "+path+" as item { item.leaf == 7 }", cur, "T", "threshold-aliased-path-lengths")
+			expect("all "+path+" as i, item { item.sub.leaf == 7 and i == 0 }", cur, "T", "threshold-aliased-path-lengths")
+			expect("any "+path+" as item { item.nope.leaf == 7 }", cur, "E", "threshold-aliased-path-lengths")
+			expect("any \"/"+strings.ReplaceAll(path, ".", "/")+"\" as item { \"/item/leaf\" == 7 }", cur, "T", "threshold-aliased-path-lengths")
+		}
+		for _, depth := range []int{8, 9, 15, 16, 17, 18, 31, 32, 33, 40} {
+			var cur interface{} = 7
+			for i := 0; i < depth; i++ {
+				cur = []interface{}{map[string]interface{}{"c": cur}}
+			}
+			var sb strings.Builder
+			prev := "root"
+			for i := 0; i < depth; i++ {
+				fmt.Fprintf(&sb, "any %s as v%d { ", map[bool]string{true: "root", false: prev + ".c"}[i == 0], i)
+				prev = fmt.Sprintf("v%d", i)
+			}
+			sb.WriteString(prev + ".c == 7" + strings.Repeat(" }", depth))
+			expect(sb.String(), map[string]interface{}{"root": cur}, "T", "threshold-aliased-path-lengths")
+		}
 	case 10: // long strings at buffer-like sizes as keys, literals and values
 		for _, n := range []int{63, 64, 65, 127, 128, 129, 255, 256, 257, 4095, 4096, 4097, 65535, 65536, 65537} {
 			key := strings.Repeat("k", n)
@@ -432,6 +460,9 @@ func c09Stress(c *mon.Ctx, k int) {
 			expect("s matches \"^v{"+fmt.Sprint(min(n, 1000))+"}\"", d, "T", "threshold-string-lengths")
 			expect("any m as k, v { k == "+key+" and v == "+val+" }", d, "T", "threshold-string-lengths")
 		}
+	case 12:
+		c09HookUnknown(c)
+		c.Count("stress:hook-unknown")
 	case 11: // more distinct Go types in one process than any per-type table holds (4096+)
 		nt := tierN(c.Tier, 4200, 20000)
 		run := func(text string, label string, mk func(i int) (interface{}, string)) {
@@ -506,6 +537,58 @@ func c09Stress(c *mon.Ctx, k int) {
 	}
 }
 
+// c09HookUnknown: a hook, an unknown value (nil, empty wrapper, scalars) and
+// a selector that hits a missing key, three features at once.
+func c09HookUnknown(c *mon.Ctx) {
+	type wrap struct{ Wrapped interface{} }
+	hooks := map[string]bexpr.ValueTransformationHookFn{
+		"identity": func(v reflect.Value) reflect.Value { return v },
+		"unwrap": func(v reflect.Value) reflect.Value {
+			x := v
+			for x.IsValid() && (x.Kind() == reflect.Interface || x.Kind() == reflect.Ptr) && !x.IsNil() {
+				x = x.Elem()
+			}
+			if x.IsValid() && x.Kind() == reflect.Struct && x.NumField() == 1 && x.Type().Field(0).Name == "Wrapped" {
+				f := x.Field(0)
+				if f.Kind() == reflect.Interface && f.IsNil() {
+					return reflect.ValueOf(nil) // an empty wrapper unwraps to "nothing"
+				}
+				return f
+			}
+			return v
+		},
+		"by-kind": func(v reflect.Value) reflect.Value {
+			switch v.Kind() {
+			case reflect.String:
+				return reflect.ValueOf(strings.ToUpper(v.String()))
+			}
+			return v
+		},
+	}
+	unknowns := []interface{}{nil, wrap{}, &wrap{}, wrap{Wrapped: "u"}, "u", 0, (*int)(nil), []interface{}{}, map[string]interface{}(nil)}
+	data := []interface{}{map[string]interface{}{"m": map[string]interface{}{"k": 1}, "l": []interface{}{map[string]interface{}{"k": 1}}}, struct{ M map[string]int }{map[string]int{"k": 1}}}
+	exprs := []string{`m.zz == 1`, `m.zz != 1`, `m.zz is empty`, `1 in m.zz`, `m.zz matches "u"`, `zz == U`, `m.zz.deeper == 1`, `any l as v { v.zz == 1 }`, `all m.zz as x { x == 1 }`, `M.zz == 1`, `m.k == 1 and m.zz != 2`}
+	for hn, h := range hooks {
+		for ui, u := range unknowns {
+			for _, e := range exprs {
+				ev, err, pan, _ := createEval(e, bexpr.WithHookFn(h), bexpr.WithUnknownValue(u))
+				if pan != "" || err != nil {
+					continue
+				}
+				for _, d := range data {
+					o := evaluate(ev, d)
+					c.Evals(1)
+					if o.Class() == "P" || o.Class() == "E!" {
+						c.Violation("C09 panic hook+unknown hook="+hn+" site="+o.Site, "Evaluate panicked (or returned true with an error) with a hook, an unknown value and a missing key", map[string]any{"expression": e, "hook": hn, "unknown_value_index": ui, "unknown_value": fmt.Sprintf("%#v", u), "observed": o.String()})
+						return
+					}
+				}
+			}
+		}
+	}
+	c.Count("hook_and_unknown_value_scenarios")
+}
+
 func bexprBudget() bexpr.Option { return bexpr.WithMaxExpressions(1 << 24) }
 
 func init() {
@@ -522,7 +605,7 @@ func init() {
 			return 300
 		},
 		Required: func(tier string) []string {
-			l := []string{"zoo_entries", "stress:big-list", "stress:big-iface-list", "stress:big-map", "stress:long-string", "stress:deep-maps", "stress:deep-lists-and-pointers", "stress:nested-quantifiers", "stress:embedded", "stress:long-chain", "stress:threshold-sizes", "stress:threshold-path-lengths", "stress:threshold-string-lengths", "stress:many-distinct-types", "random_evaluations", "outcome:T", "outcome:F", "outcome:E", "random_unspecified_covered"}
+			l := []string{"zoo_entries", "stress:big-list", "stress:big-iface-list", "stress:big-map", "stress:long-string", "stress:deep-maps", "stress:deep-lists-and-pointers", "stress:nested-quantifiers", "stress:embedded", "stress:long-chain", "stress:threshold-sizes", "stress:threshold-path-lengths", "stress:threshold-aliased-path-lengths", "stress:threshold-string-lengths", "stress:many-distinct-types", "stress:hook-unknown", "random_evaluations", "outcome:T", "outcome:F", "outcome:E", "random_unspecified_covered"}
 			for _, op := range append(append([]string{}, c01Ops...), "not", "quantifier", "connective") {
 				for _, z := range []string{"nil", "int", "chan", "func", "complex128", "struct", "slice-iface-mixed", "slice-ptr-nil", "slice-ptrptr", "map-int-key", "map-named-key", "nilptr", "cyclic-map", "unsafe.Pointer"} {
 					l = append(l, "cell:"+op+"/"+z+"@map")
